@@ -148,8 +148,16 @@ def run(ctx):
     model = ctx.driver.ask(["a64parse " + esc(line) for _, line, _, _ in items])
     rendered = ctx.driver.ask(["a64render " + a64gen.ast_wire(ast, gaps) for ast, _, gaps, _ in items])
     expected = ctx.driver.ask(["a64expect " + a64gen.ast_wire(ast, gaps) for ast, _, gaps, _ in items])
+    indomain = ctx.driver.ask(["a64domain " + a64gen.ast_wire(ast, gaps) for ast, _, gaps, _ in items])
+    n_in = sum(1 for d in indomain if d == "1")
+    n_in_bad = 0
     distinct = set()
-    for (ast, line, gaps, want), m, rd, ex in zip(items, model, rendered, expected):
+    for (ast, line, gaps, want), m, rd, ex, dom in zip(items, model, rendered, expected, indomain):
+        if dom == "1" and m != want:
+            # inside the theorem's domain the model is *proved* to deliver the expectation
+            n_in_bad += 1
+            if n_in_bad <= 3:
+                ctx.correspondence_break("theorem-domain", {"line": line, "model": m, "theorem_says": want})
         got = impl(line)
         if ast["ops"]:
             distinct.add(line)
@@ -174,6 +182,9 @@ def run(ctx):
                 ctx.violation("instruction line %r: parser delivers %s, written was %s"
                               % (rep["line"], rep["observed"], rep["expected"]), rep)
     ctx.count("instruction_lines", len(items))
+    ctx.count("lines_inside_theorem_domain", n_in)
+    ctx.cov["theorem_domain"] = {"generated_lines": len(items), "inside_domain_of_a64_roundtrip": n_in,
+                                 "outside_examples": [l for (a, l, g, w), d in zip(items, indomain) if d != "1"][:5]}
     for ast, line, _, want in items[:3]:
         ctx.sample({"line": line, "expected": want})
 
@@ -286,9 +297,9 @@ def run(ctx):
     ctx.count("corr_disagreements", n_corr)
     ctx.count("oracle_failures", n_oracle)
     ctx.count("renderer_disagreements", n_render)
-    ctx.log("lines %d + %d, files %d (%d lines): correspondence disagreements %d, oracle failures %d, "
-            "renderer disagreements %d; malformed (informational) %d/%d agree"
-            % (len(items), len(others), vol["files"], n_file_lines, n_corr, n_oracle, n_render, agree, total))
+    ctx.log("lines %d (%d inside the domain of a64_roundtrip) + %d, files %d (%d lines): correspondence disagreements %d, "
+            "oracle failures %d, renderer disagreements %d; malformed (informational) %d/%d agree"
+            % (len(items), n_in, len(others), vol["files"], n_file_lines, n_corr, n_oracle, n_render, agree, total))
     ctx.cov["evaluations"] = len(items) + len(others) + n_file_lines + len(corpus)
     ctx.cov["traces_validated_against_impl"] = len(items) + len(others) + vol["files"] + len(corpus)
     ctx.cov["distinct_nontrivial"] = len(distinct)
